@@ -191,26 +191,25 @@ Definition check_case (c : case) : list string :=
       let offs := tpl_offs tpls in
       let hs := map (fun o => fst (fst o)) ops in
       let rs := offs_ids offs in
-      let '(corr, orc, sf) := checkN gate md offs tpls hs rs (Some (mkFS (init_sys offs) (fun _ => mkF None None None) (fun _ => []))) ops obs in
+      let '(corr, orc, sf) := checkN gate md offs tpls hs rs (Some (mkFS (init_sys offs) (fun _ => mkF None None None RAny) (fun _ => []))) ops obs in
       let fin_corr := match sf with
                       | Some s => forallb (fun f => let '(h, pinned, ctonly) := f in
-                                                    opt_set_eqb pinned (pin (fs_core s) h) &&
-                                                    (match pin (fs_core s) h with Some _ => ctonly | None => true end)) fin &&
+                                                    let held := s_res (fs_core s) h in
+                                                    let fr := final_rids (fs_req s h) held in
+                                                    opt_set_eqb pinned (match fr with RAny => None | _ => Some (filter (radmits fr) (offs_ids (filter (fun o => String.eqb (fst (fst o)) reserved_ct) offs))) end) &&
+                                                    (is_nil held || ctonly)) fin &&
                                   (length fin =? length (s_hosts (fs_core s)))%nat
                       | None => true
                       end in
       let held := snd (last_snap obs) in
-      let fin_orc := forallb (fun f => let '(h, pinned, ctonly) := f in pinned_ok_b held (h, pinned, ctonly, [])) fin &&
-                     forallb (fun r => match spec_cap offs r with
-                                       | Some c0 => if 0 <=? c0 then pinned_count (map (fun f => (f, @nil rid)) fin) r <=? c0 else true
-                                       | None => true end) rs in
+      let fin_orc := forallb (fun f => let '(h, pinned, ctonly) := f in pinned_ok_b held (h, pinned, ctonly, [])) fin in
       (if corr then [] else ["corr:nodeclaim-step"]) ++ (if fin_corr then [] else ["corr:finalize-pinning"]) ++
       (if orc then [] else ["oracle:step-overcommit-or-silent-fallback"]) ++
       (if fin_orc || is_nil obs then [] else ["oracle:final-pinning-or-overcommit"])
   | CaseS md offs claims snap =>
       let caps0 := new_caps offs (fun _ => None) in
       let corr := forallb (fun r => match caps0 r, assoc r (fst snap) with
-                                    | Some c0, Some c => c =? c0 - pinned_count claims r
+                                    | Some c0, Some c => c =? c0 - held_count (snd snap) r
                                     | None, None => true
                                     | _, _ => false end) (offs_ids offs ++ snap_rids snap) in
       (if corr then [] else ["corr:solve-capacity-equation"]) ++
